@@ -946,7 +946,9 @@ fn gen_wbuf(r: &mut Rng, _out: &mut Out) -> Vec<String> {
 
 pub fn gen(a: &Args) -> String {
     install_hook();
-    let mut r = Rng::new(a.seed);
+    // `Rng::new` is linear in the seed (seed k+1 = seed k advanced by one step): re-seed from a mixed
+    // output so that different VERIF_SEEDs give unrelated case sequences
+    let mut r = Rng::new(Rng::new(a.seed).next() ^ 0xC17C_17C1_7C17_C17C);
     let mut out = Out::default();
     out.buf.push_str("#rule one case = one generated structure of one codec: `rt` = structure -> real encoder -> real decoder (bytes and decoded fields printed), followed by `dec` ops on the same bytes, on single-bit/byte mutations, truncations, extensions and on arbitrary strings; boundary field values (0,1,max,2^k) and every flag subset are enumerated by the generator; non-trivial = the ops of the case produced at least two different answers (e.g. an accepted and a refused decode); distinct = by operation list\n");
     let scale: u64 = if a.thorough { 12 } else { 1 };
